@@ -63,12 +63,18 @@ SparseWeightMatrix tangent_weight_matrix(RandomAccessIterator begin, RandomAcces
             // directions) are arbitrary and need not be orthogonal to the constant column
             for (IndexType i = 1; i < static_cast<IndexType>(G.cols()); i++)
             {
+                const ScalarType norm_before = G.col(i).norm();
                 for (IndexType j = 0; j < i; j++)
                 {
                     ScalarType r = G.col(i).dot(G.col(j));
                     G.col(i) -= r * G.col(j);
                 }
-                G.col(i) /= G.col(i).norm();
+                const ScalarType norm = G.col(i).norm();
+                // a column that depends linearly on the previous ones is dropped, not normalized
+                if (norm > 1e-8 * norm_before)
+                    G.col(i) /= norm;
+                else
+                    G.col(i).setZero();
             }
             // RESTRICT_ALLOC;
             gram_matrix.noalias() = G * G.transpose();
@@ -226,13 +232,18 @@ SparseWeightMatrix hessian_weight_matrix(RandomAccessIterator begin, RandomAcces
 
             for (IndexType i = 0; i < static_cast<IndexType>(Yi.cols()); i++)
             {
+                const ScalarType norm_before = Yi.col(i).norm();
                 for (IndexType j = 0; j < i; j++)
                 {
                     ScalarType r = Yi.col(i).dot(Yi.col(j));
                     Yi.col(i) -= r * Yi.col(j);
                 }
                 ScalarType norm = Yi.col(i).norm();
-                Yi.col(i) *= (1.f / norm);
+                // a column that depends linearly on the previous ones is dropped, not normalized
+                if (norm > 1e-8 * norm_before)
+                    Yi.col(i) *= (1.f / norm);
+                else
+                    Yi.col(i).setZero();
             }
             for (IndexType i = 0; i < dp; i++)
             {
